@@ -22,6 +22,9 @@ from pyvc.api import UNITS as _UNITS
 for _u in list(_UNITS.get("C10", [])):
   if _u.name.startswith("arbitrary_bytes_"):
     unit(P, target=_u.target, name="decoder_" + _u.name[len("arbitrary_bytes_"):] + "_consumes_the_declared_length")(_u.fn)
+  if _u.name.startswith("well_formed_length_is_accepted_"):
+    # ... and a frame whose length its type allows IS decoded (a rejected frame is not handed over: 'delivers exactly that sequence')
+    unit(P, target=_u.target, name="decoder_" + _u.name[len("well_formed_length_is_accepted_"):] + "_accepts_every_permitted_length")(_u.fn)
 
 
 def next_cut(S, c):
@@ -64,3 +67,48 @@ import contracts.c10_taskloop as _TL
 import contracts.c10_ioloop as _IL
 unit(P, target=_TL.OF01 + "OpenFlow_01_Task.run", name="controller_loop_reads_what_select_reports")(_TL.a_failing_connection_is_closed_alone_and_the_loop_goes_on)
 unit(P, target=_IL.IO + "RecocoIOLoop.run", name="switch_io_loop_reads_what_select_reports")(_IL.a_failing_worker_is_closed_alone_and_the_io_loop_goes_on)
+
+
+# ---- the connect probe of an outbound worker (the switch's connection to its controller) must not eat stream bytes
+# (added 2026-09-25 after seeded change C02_7: recv(1) instead of recv(1, MSG_PEEK) shifted the framing by one byte whenever
+# the controller's first bytes had already arrived when the loop noticed the connect)
+import socket as _socket
+import pox.lib.ioworker as _iow
+
+
+class StreamSock(object):
+  """a connected socket with `stream` waiting in its receive queue: recv returns up to n bytes of it and - unless MSG_PEEK is
+  given - removes them from the queue"""
+  def recv(self, n, flags=0):
+    self.trace.log.append(("recv", n, flags))
+    d = self.stream[:n]
+    if not (flags & _socket.MSG_PEEK):
+      self.stream = self.stream[n:]
+    return d
+
+
+def _connected(worker):
+  worker.socket.trace.log.append(("connected",))
+
+
+def _rx(worker):
+  worker.socket.trace.log.append(("rx",))
+
+
+@unit(P, target="pox.lib.ioworker:IOWorker._try_connect / _do_recv (outbound worker noticing its connect)")
+def the_connect_probe_does_not_consume_stream_bytes(b):
+  tr = b.raw_new(_IL.Trace, log=b.list([]))
+  S = b.bytes("already_arrived", None, 1, 64)
+  sock = b.raw_new(StreamSock, trace=tr, stream=S)
+  w = b.raw_new(_iow.RecocoIOWorker, socket=sock, send_buf=b"", receive_buf=b"", closed=False, _custom_rx_handler=_rx,
+                _custom_close_handler=_iow._dummy_handler, _custom_connect_handler=_connected, _connecting=True,
+                _shutdown_send=False, on_close=None, pinger=None)
+  loop = b.raw_new(_iow.RecocoIOLoop, _workers=b.set_of([w]), pinger=None, _pending_commands=b.deque([]), running=None, id=1,
+                   priority=1, _worker_type=_iow.RecocoIOWorker)
+  def run(w, loop):
+    w._do_recv(loop)
+    return (w.receive_buf, w._connecting, [e[0] for e in tr.log], sock.stream)
+  return Case(run, [w, loop], raises={}, ensures={
+    "every_byte_that_had_arrived_reaches_the_receive_buffer_starting_with_the_first": lambda res: res[0] == S and len(res[3]) == 0,
+    "the_worker_is_connected_and_said_so_once_before_the_data": lambda res: res[1] is False and res[2] == ["recv", "connected", "recv", "rx"],
+  })
